@@ -18,6 +18,10 @@ use crate::eval::EvalResult;
 /// a bundle with one spend of puzzle "1" whose solution is one AGG_SIG_UNSAFE condition, signed; `pad` bytes of REMARK
 /// payload make the serialised size controllable
 fn bundle(tag: u8, pad: usize) -> (SpendBundle, [u8; 32]) {
+    // a signed spend whose signature travels in a second bundle that has no spends of its own: 240 is the spend of tag 7
+    // under the identity signature, 241 the spend-less bundle that carries tag 7's signature.  Only the two together verify.
+    if tag == 240 { let (b, id) = bundle(7, pad); return (SpendBundle::new(b.coin_spends, Signature::default()), id); }
+    if tag == 241 { let (b, _) = bundle(7, pad); return (SpendBundle::new(vec![], b.aggregated_signature), [0u8; 32]); }
     if tag >= 200 {
         // a spend that shares no atom with the generator's wrapper or with the other spends except nil: puzzle `2` (the
         // first element of the solution), solution `(())` - no conditions, unsigned
@@ -184,11 +188,11 @@ pub fn run_batch_history(k: Kind, batches: &[Vec<u8>]) -> Result<String, String>
         for tags in batches {
             let made: Vec<(SpendBundle, [u8; 32])> = tags.iter().map(|t| bundle(*t, 0x80)).collect();
             let bundles: Vec<SpendBundle> = made.iter().map(|m| m.0.clone()).collect();
-            let declared: u64 = bundles.iter().map(true_cost).sum();
+            let declared: u64 = tags.iter().map(|t| match *t { 240 => true_cost(&bundle(7, 0x80).0), 241 => 0, t => true_cost(&bundle(t, 0x80).0) }).sum();
             let added = b.add_many(&bundles, declared)?;
             if b.cost() > max { return Err(format!("running cost {} exceeds the limit", b.cost())); }
             decisions.push(if added { 'A' } else { 'r' });
-            if added { for (bun, id) in &made { accepted.push(*id); sig += &bun.aggregated_signature; } }
+            if added { for (bun, _) in &made { for cs in &bun.coin_spends { accepted.push(cs.coin.coin_id().into()); } sig += &bun.aggregated_signature; } }
         }
         let running = b.cost();
         let (generator, fsig, cost) = b.fin()?;
@@ -220,6 +224,9 @@ pub fn batch_histories() -> Vec<(String, Kind, Vec<Vec<u8>>)> {
         v.push((format!("{kn}/two-batches-of-two"), k, vec![vec![1, 2], vec![3, 4]]));
         v.push((format!("{kn}/batch-of-five-disjoint"), k, vec![vec![200, 201, 202, 203, 204]]));
         v.push((format!("{kn}/empty-batch-then-two"), k, vec![vec![], vec![1, 2]]));
+        // a bundle without spends still contributes its signature
+        v.push((format!("{kn}/signature-in-a-spendless-bundle"), k, vec![vec![240, 241]]));
+        v.push((format!("{kn}/spendless-bundle-first"), k, vec![vec![1], vec![241, 240, 2]]));
     }
     v
 }
